@@ -85,7 +85,22 @@ def eval_translator(prog, mod, fn):
 # per kind: form N (NortenElement: Z, V) or T (TheveninElement: Y, I); immittance; source value; gating
 V_ = "c.value['{}']"
 FS = ("fourier_series(periodic_function(c.value['wavetype'])(period=2*pi/c.value['w'], amplitude=c.value['{amp}'], phase=c.value['phi']))")
+FS_POS = ("fourier_series(periodic_function(c.value['wavetype'])(2*pi/c.value['w'], c.value['{amp}'], c.value['phi']))")
 N_H = "round(w/c.value['w'])"
+
+
+def wave_field_order(prog):
+    """common constructor field order of the wave classes registered in fourier_series_mapping (None when they differ)"""
+    try:
+        m = prog.mod(PF)
+        orders = []
+        for key, kn, vn in prog.table(PF, 'fourier_series_mapping'):
+            r = prog.resolve_expr(m, kn)
+            if not r or r[0] != 'class': return None
+            orders.append([f[0] for f in prog.dataclass_fields(r[1], r[2]) if f[3]])
+        return orders[0] if orders and all(o == orders[0] for o in orders) else None
+    except Exception:
+        return None
 KIND_SPEC = {
     'resistor':        dict(form='N', imm="c.value['R']", src='0'),
     'conductance':     dict(form='T', imm="c.value['G']", src='0'),
@@ -214,6 +229,12 @@ def check_kind(rep, prog, kind, mod, fn, written, rules=('identity', 'immittance
     if 'phasor' in rules and form is not None:
         if form == sp['form'] or (as_poly(src).is_zero() and as_poly(src_spec).is_zero()):
             ok = term_equal(src, src_spec)
+            if not ok and 'FS' in sp['src']:
+                # the wave classes are dataclasses with one common field order: constructing the selected class positionally is the same call
+                order = wave_field_order(prog)
+                if order and order[:3] == ['period', 'amplitude', 'phase']:
+                    alt_txt = sp['src'].replace('FS', FS_POS.format(amp=sp.get('amp', 'V'))).replace('NH', N_H)
+                    ok = term_equal(src, spec(ev, alt_txt, env, m))
             v = True if ok else (None if has_opaque(src) else False)
             rep.ob(f'{pid_rule}.phasor', kind, v, f"{'V' if form == 'N' else 'I'} = {src!r:.200}" + ('' if ok else f', specification {src_spec!r:.200}'), site, lhs=src, rhs=src_spec)
         else:
